@@ -9,6 +9,9 @@ model; every result and every complete state dump must be identical.
   * breadth-first enumeration of the reachable states for capacities 1 and 2 (every legal
     operation from every state found, bounded number of outstanding handles), flagged
     `exhaustive` in the evidence with whether the fixpoint was reached.
+Second tie: engine "cache-ring" — the extracted *pointer-level* model (Cache/CacheRing.v: next/prev
+arrays, split, counters, in-flight head) replays the same histories; its complete line, including
+the raw next/prev/split/inflight members, must equal what the driver printed from the real structure.
 Search: every state and every step the *implementation* printed is judged by the extracted
 spec (engine "cache-spec": CacheSpec.invb_clauses / step_okb_clauses)."""
 import re
@@ -377,9 +380,8 @@ def bfs(run, exe, cap, nkeys, maxrefs, max_states, max_hist):
 
 def check(run):
     run.trusted += ["harness/cache_drv.c: the client (handles, buffer fill pattern), the traversal of the real "
-                    "ring, the preset of the indeterminate key/state fields after cache_alloc",
-                    "modelled, not verified: the ring-level pointer surgery (add_entry_after/before, "
-                    "remove_entry, split updates) — observed through the traversal on every step, not proved"]
+                    "ring, the raw next/prev dump, the preset of the indeterminate key/state/inflight fields "
+                    "after cache_alloc"]
     run.assumptions += ["callers follow the client protocol of read.c/fcache.c: cache_insert/cache_discard only "
                         "through a handle obtained from a lookup that returned a non-valid entry, once per handle; "
                         "cache_put_entry once per other handle; cache_flush only with no handle outstanding; "
